@@ -14,6 +14,7 @@ import (
 	"strings"
 	"time"
 
+	"verif/mc/covrt"
 	"verif/mc/vs"
 )
 
@@ -95,6 +96,7 @@ func Setup(id, part, level string, scenarios func()) *Ctx {
 	args := os.Args[1:]
 	if len(args) > 0 && args[0] == "-worker" {
 		vs.WorkerMain(1500)
+		covrt.Flush()
 		return nil
 	}
 	c := &Ctx{ID: id, Part: part, Level: level, Tier: "quick", Start: time.Now(), distinct: map[string]struct{}{}, notes: map[string]any{}, exhaustive: true, Workers: 16}
@@ -285,8 +287,12 @@ func (c *Ctx) Violate(kind string, sig, msg string, cs any) {
 
 func (c *Ctx) writeReplay(rf ReplayFile) string {
 	h := sha256.Sum256([]byte(rf.Sig))
-	_ = os.MkdirAll(filepath.Join(Root, "replays"), 0o755)
-	p := filepath.Join(Root, "replays", fmt.Sprintf("%s-%s.json", c.ID, hex.EncodeToString(h[:5])))
+	rdir := filepath.Join(Root, "replays")
+	if d := os.Getenv("VERIF_REPLAY_DIR"); d != "" {
+		rdir = d
+	}
+	_ = os.MkdirAll(rdir, 0o755)
+	p := filepath.Join(rdir, fmt.Sprintf("%s-%s.json", c.ID, hex.EncodeToString(h[:5])))
 	b, _ := json.MarshalIndent(rf, "", " ")
 	_ = os.WriteFile(p, b, 0o644)
 	return p
@@ -528,6 +534,7 @@ func (c *Ctx) Finish() {
 		fmt.Fprintln(os.Stderr, err)
 		os.Exit(2)
 	}
+	covrt.Flush()
 	fmt.Printf("%s[%s] %s: evaluations=%d states=%d transitions=%d distinct=%d exhaustive=%v wall=%.1fs\n", c.ID, c.Part, c.Tier, c.evals, c.states, c.transitions, len(c.distinct), cov["exhaustive"], time.Since(c.Start).Seconds())
 	if len(c.harnessErr) > 0 {
 		sort.Strings(c.harnessErr)
